@@ -28,12 +28,9 @@ W = {
     "bash_qmark": [case("bash", ["what?"])],
     "tcsh_brace": [case("tcsh", [], word="a{", msgs=["m"]), case("tcsh", ["a{b}c"]), case("tcsh", ["{"], word="{")],
     "oil_unquoted": [case("oil", [], word="a\\b", msgs=["m"]), case("oil", ["a b"]), case("oil", ["a\\b"]), case("oil", ["a b/"], nospace="/")],
-    "nushell_tab": [case("nushell", ["a\tb"]), case("nushell", ["a\t"], nospace="*")],
     "powershell_squote": [case("powershell", [], word="it's", msgs=["m"]), case("powershell", ["it's here"]), case("powershell", ["it's"]), case("powershell", ["a'b/"], nospace="/"), case("powershell", ["'b'"])],
-    "powershell_cr": [case("powershell", ["a\rb"]), case("powershell", [("ab", "a\rb", "")])],
     "xonsh_squote": [case("xonsh", [], word="it's", msgs=["m"]), case("xonsh", ["it's"])],
     "xonsh_trailing_backslash": [case("xonsh", [], word="a b\\", msgs=["m"]), case("xonsh", ["dir\\"])],
-    "xonsh_cr": [case("xonsh", ["a\rb"])],
     "xonsh_display_unsanitised": [case("xonsh", [("ab", "a\nb", "")])],
     "xonsh_nospace_after_quoting": [case("xonsh", ["my dir/"], nospace="/")],
     "bashble_unsanitised": [case("bash-ble", ["a/\tb", "a/"], nospace="/"), case("bash-ble", [("a\tb", "a\tb", "line1\nline2")]), case("bash-ble", ["a/\tb"], nospace="b"),
